@@ -1409,7 +1409,7 @@ func (st *State) appendOp(c *ssa.CallCommon, args []Value) Value {
 	newLen := s.Len + addLen
 	res := s
 	if newLen > s.Cap {
-		newCap := growCap(s.Cap, newLen, es)
+		newCap := growCap(s.Cap, newLen, es, len(ptrSlots(et)) == 0)
 		b := st.newBlock(newCap*es, et, newCap, BHeap)
 		st.blocks[b].Name = "append " + et.String()
 		np := Ptr{Blk: b}
@@ -1432,13 +1432,13 @@ func (st *State) appendOp(c *ssa.CallCommon, args []Value) Value {
 
 // growCap ports runtime.growslice's capacity computation (go1.20+), including
 // size-class rounding for the gc runtime.
-func growCap(oldCap, newLen, es int64) int64 {
+func growCap(oldCap, newLen, es int64, noscan bool) int64 {
 	newcap := nextslicecap(newLen, oldCap)
 	if es == 0 {
 		return newcap
 	}
 	mem := newcap * es
-	mem = roundupsize(mem)
+	mem = roundupsize(mem, noscan)
 	return mem / es
 }
 
@@ -1466,14 +1466,21 @@ func nextslicecap(newLen, oldCap int64) int64 {
 
 var sizeClasses = []int64{0, 8, 16, 24, 32, 48, 64, 80, 96, 112, 128, 144, 160, 176, 192, 208, 224, 240, 256, 288, 320, 352, 384, 416, 448, 480, 512, 576, 640, 704, 768, 896, 1024, 1152, 1280, 1408, 1536, 1792, 2048, 2304, 2688, 3072, 3200, 3456, 4096, 4864, 5376, 6144, 6528, 6784, 6912, 8192, 9472, 9728, 10240, 10880, 12288, 13568, 14336, 16384, 18432, 19072, 20480, 21760, 24576, 27264, 28672, 32768}
 
-func roundupsize(n int64) int64 {
-	if n <= 32768 {
+// roundupsize ports runtime.roundupsize (go1.22+): objects with pointers larger
+// than 512 bytes carry an 8-byte malloc header inside their size class.
+func roundupsize(n int64, noscan bool) int64 {
+	const mallocHeaderSize, minSizeForMallocHeader, maxSmallSize = 8, 512, 32768
+	req := n
+	if req <= maxSmallSize-mallocHeaderSize {
+		if !noscan && req > minSizeForMallocHeader {
+			req += mallocHeaderSize
+		}
 		for _, c := range sizeClasses {
-			if c >= n {
-				return c
+			if c >= req {
+				return c - (req - n)
 			}
 		}
 	}
 	// large: round up to page size (8192)
-	return (n + 8191) &^ 8191
+	return (req + 8191) &^ 8191
 }
